@@ -12,6 +12,7 @@ mod prng;
 mod props;
 mod run;
 mod stubs;
+mod threads;
 
 #[global_allocator]
 static GLOBAL: alloc::SimAlloc = alloc::SimAlloc;
